@@ -141,10 +141,37 @@ func c20Measure(s c20Shape, warm string, only string) (allocating []string, nops
 		base func() // when set: what f does besides the operation under test; only allocations beyond base count
 	}
 	runt := raw[:len(raw)/2]
+	// a shorter message that arrives with other bytes behind it (a stream transport read ahead)
+	shortTrail := append(append([]byte(nil), raw[:20]...), 1, 2, 3, 4, 5, 6, 7, 8)
+	shortTrail[2], shortTrail[3] = 0, 0
+	// a message of the same kinds in which every attribute is as small as it can be: destinations that held the
+	// large values keep their storage through it
+	small := new(stun.Message)
+	{
+		ss := append([]stun.Setter{}, setters[:2]...)
+		for _, k := range s.Kinds {
+			switch a := c20Plain[k].Attr; a {
+			case stun.AttrXORMappedAddress:
+				ss = append(ss, &stun.XORMappedAddress{IP: net.IPv4(9, 9, 9, 9).To4(), Port: 9})
+			case stun.AttrMappedAddress:
+				ss = append(ss, &stun.MappedAddress{IP: net.IPv4(9, 9, 9, 9).To4(), Port: 9})
+			case stun.AttrAlternateServer:
+				ss = append(ss, &stun.AlternateServer{IP: net.IPv4(9, 9, 9, 9).To4(), Port: 9})
+			case stun.AttrErrorCode:
+				ss = append(ss, &stun.ErrorCodeAttribute{Code: 400})
+			default:
+				ss = append(ss, stun.RawAttribute{Type: a})
+			}
+		}
+		if err := small.Build(ss...); err != nil {
+			panic("c20: minimal shape does not build: " + err.Error())
+		}
+	}
 	ops := []op{
 		{"Message.Write", func() { _, _ = m.Write(raw) }, nil},
 		// an undecodable datagram (the first half of the message) in between: the warm storage survives it
 		{"Message.Write(after an undecodable datagram)", func() { _, _ = m.Write(runt); _, _ = m.Write(raw) }, func() { _, _ = m.Write(runt) }},
+		{"Message.Write(after a shorter message with other bytes behind it)", func() { _, _ = m.Write(shortTrail); _, _ = m.Write(raw) }, nil},
 		{"Decode(data,m)", func() { _ = stun.Decode(raw, m) }, nil},
 		{"Message.ReadFrom", func() { _, _ = m.ReadFrom(rd) }, nil},
 		{"Get", func() { _, _ = m.Get(stun.AttrSoftware); _, _ = m.Get(stun.AttrUsername); _, _ = m.Get(0x7777) }, nil},
@@ -154,30 +181,39 @@ func c20Measure(s c20Shape, warm string, only string) (allocating []string, nops
 	}
 	if present[stun.AttrUsername] {
 		ops = append(ops, op{name: "Username.GetFrom", f: func() { _ = uname.GetFrom(m) }})
+		ops = append(ops, op{name: "Username.GetFrom(after a message with a minimal one)", f: func() { _ = uname.GetFrom(small); _ = uname.GetFrom(m) }})
 	}
 	if present[stun.AttrRealm] {
 		ops = append(ops, op{name: "Realm.GetFrom", f: func() { _ = realm.GetFrom(m) }})
+		ops = append(ops, op{name: "Realm.GetFrom(after a message with a minimal one)", f: func() { _ = realm.GetFrom(small); _ = realm.GetFrom(m) }})
 	}
 	if present[stun.AttrNonce] {
 		ops = append(ops, op{name: "Nonce.GetFrom", f: func() { _ = nonce.GetFrom(m) }})
+		ops = append(ops, op{name: "Nonce.GetFrom(after a message with a minimal one)", f: func() { _ = nonce.GetFrom(small); _ = nonce.GetFrom(m) }})
 	}
 	if present[stun.AttrSoftware] {
 		ops = append(ops, op{name: "Software.GetFrom", f: func() { _ = soft.GetFrom(m) }})
+		ops = append(ops, op{name: "Software.GetFrom(after a message with a minimal one)", f: func() { _ = soft.GetFrom(small); _ = soft.GetFrom(m) }})
 	}
 	if present[stun.AttrXORMappedAddress] {
 		ops = append(ops, op{name: "XORMappedAddress.GetFrom", f: func() { _ = xaddr.GetFrom(m) }})
+		ops = append(ops, op{name: "XORMappedAddress.GetFrom(after a message with a minimal one)", f: func() { _ = xaddr.GetFrom(small); _ = xaddr.GetFrom(m) }})
 	}
 	if present[stun.AttrMappedAddress] {
 		ops = append(ops, op{name: "MappedAddress.GetFrom", f: func() { _ = maddr.GetFrom(m) }})
+		ops = append(ops, op{name: "MappedAddress.GetFrom(after a message with a minimal one)", f: func() { _ = maddr.GetFrom(small); _ = maddr.GetFrom(m) }})
 	}
 	if present[stun.AttrAlternateServer] {
 		ops = append(ops, op{name: "AlternateServer.GetFrom", f: func() { _ = alt.GetFrom(m) }})
+		ops = append(ops, op{name: "AlternateServer.GetFrom(after a message with a minimal one)", f: func() { _ = alt.GetFrom(small); _ = alt.GetFrom(m) }})
 	}
 	if present[stun.AttrErrorCode] {
 		ops = append(ops, op{name: "ErrorCodeAttribute.GetFrom", f: func() { _ = ecode.GetFrom(m) }})
+		ops = append(ops, op{name: "ErrorCodeAttribute.GetFrom(after a message with a minimal one)", f: func() { _ = ecode.GetFrom(small); _ = ecode.GetFrom(m) }})
 	}
 	if present[stun.AttrUnknownAttributes] {
 		ops = append(ops, op{name: "UnknownAttributes.GetFrom", f: func() { _ = uattr.GetFrom(m) }})
+		ops = append(ops, op{name: "UnknownAttributes.GetFrom(after a message with a minimal one)", f: func() { _ = uattr.GetFrom(small); _ = uattr.GetFrom(m) }})
 	}
 	if key != nil {
 		ops = append(ops, op{name: "MessageIntegrity.Check", f: func() { _ = key.Check(m) }})
